@@ -1,2 +1,58 @@
-pub fn cmd_merkle(_: &str) -> String { "TODO".into() }
-pub fn cmd_mroot(_: &str) -> String { "TODO".into() }
+use roughenough::merkle::MerkleTree;
+use roughenough::version::Version;
+
+use crate::util::{fnv64, guarded, hex, unhex};
+
+pub fn version_of(s: &str) -> Version {
+    match s {
+        "Google" | "0" => Version::Google,
+        "RfcDraft13" | "13" => Version::RfcDraft13,
+        _ => panic!("bad version {}", s),
+    }
+}
+
+/// merkle <ver> <batch>|<batch>|...   (batch = leafhex,leafhex,...; '-' = empty leaf)
+/// One reused MerkleTree: reset; push*; compute_root; get_paths(i) for every i.
+/// Output per batch: R=<root> P=<len:fnv of each path> ; batches separated by ' | '
+pub fn cmd_merkle(arg: &str) -> String {
+    let mut it = arg.trim().splitn(2, ' ');
+    let ver = version_of(it.next().unwrap());
+    let batches: Vec<Vec<Vec<u8>>> = it
+        .next()
+        .unwrap_or("")
+        .split('|')
+        .map(|b| b.split(',').filter(|s| !s.is_empty()).map(unhex).collect())
+        .collect();
+    let r = guarded(move || {
+        let mut tree = MerkleTree::new(ver);
+        let mut outs = Vec::new();
+        for leaves in &batches {
+            tree.reset();
+            for l in leaves {
+                tree.push_leaf(l);
+            }
+            let root = tree.compute_root();
+            let mut ps = Vec::new();
+            for i in 0..leaves.len() {
+                let p = tree.get_paths(i);
+                ps.push(format!("{}:{}", p.len(), fnv64(&p)));
+            }
+            outs.push(format!("R={} P={}", hex(&root), ps.join(",")));
+        }
+        outs.join(" | ")
+    });
+    r.unwrap_or_else(|| "PANIC".to_string())
+}
+
+/// mroot <ver> <index> <leafhex> <pathhex> : root_from_paths on a fresh tree
+pub fn cmd_mroot(arg: &str) -> String {
+    let p: Vec<&str> = arg.trim().split(' ').collect();
+    let ver = version_of(p[0]);
+    let index: usize = p[1].parse().unwrap();
+    let leaf = unhex(p[2]);
+    let path = unhex(p[3]);
+    match guarded(move || MerkleTree::new(ver).root_from_paths(index, &leaf, &path)) {
+        None => "PANIC".to_string(),
+        Some(r) => format!("OK {}", hex(&r)),
+    }
+}
